@@ -12,13 +12,22 @@ for n in names:
         continue
     meta = json.load(open(os.path.join(VERIF, "seeded", n, "meta.json")))
     props = [n.split("-")[0]] + [p for p in meta.get("checks_against_it", {}) if p != n.split("-")[0]]
-    assert subprocess.run(["git", "-C", "/repo", "status", "--porcelain"], capture_output=True, text=True).stdout.strip() == "", "/repo not clean"
-    subprocess.run(["git", "-C", "/repo", "apply", os.path.join(VERIF, "seeded", n, "patch.diff")], check=True)
+    scratch = os.environ.get("EVAL_SCRATCH") == "1"          # patched scratch worktree + VERIF_REPO instead of /repo itself
+    env = dict(os.environ)
+    if scratch:
+        swt = "/tmp/evalall_%d" % os.getpid()
+        subprocess.run(["git", "-C", "/repo", "worktree", "remove", "--force", swt], capture_output=True)
+        subprocess.run(["git", "-C", "/repo", "worktree", "add", "-q", "--detach", swt, "HEAD"], check=True)
+        subprocess.run(["git", "-C", swt, "apply", os.path.join(VERIF, "seeded", n, "patch.diff")], check=True)
+        env["VERIF_REPO"] = swt
+    else:
+        assert subprocess.run(["git", "-C", "/repo", "status", "--porcelain"], capture_output=True, text=True).stdout.strip() == "", "/repo not clean"
+        subprocess.run(["git", "-C", "/repo", "apply", os.path.join(VERIF, "seeded", n, "patch.diff")], check=True)
     out = {}
     try:
         for p in props:
             t0 = time.time()
-            r = subprocess.run([os.path.join(VERIF, "check"), p, "--tier", "quick"], cwd=VERIF, capture_output=True, text=True, timeout=2400)
+            r = subprocess.run([os.path.join(VERIF, "check"), p, "--tier", "quick"], cwd=VERIF, capture_output=True, text=True, timeout=2400, env=env)
             kind = None
             for l in (r.stdout + r.stderr).split("\n"):
                 if l.startswith("VIOLATION") and "replay=" in l:
@@ -30,11 +39,14 @@ for n in names:
                     break
             out[p] = {"exit": r.returncode, "first_replay_kind": kind, "secs": round(time.time() - t0, 1)}
     finally:
-        subprocess.run(["git", "-C", "/repo", "checkout", "--", "."], check=True)
+        if scratch:
+            subprocess.run(["git", "-C", "/repo", "worktree", "remove", "--force", swt], capture_output=True)
+        else:
+            subprocess.run(["git", "-C", "/repo", "checkout", "--", "."], check=True)
     res[n] = out
     print(n, {k: (v["exit"], v["first_replay_kind"]) for k, v in out.items()}, flush=True)
 if not only:
     json.dump({"when": time.strftime("%Y-%m-%d %H:%M:%S"), "repo_head": subprocess.run(["git", "-C", "/repo", "rev-parse", "--short", "HEAD"], capture_output=True, text=True).stdout.strip(),
                "results": res}, open(os.path.join(VERIF, "seeded", "RESULTS.json"), "w"), indent=1)
-missed = [n for n, o in res.items() if o[n.split("-")[0]]["exit"] != 1 or not o[n.split("-")[0]]["first_replay_kind"] or "no-failing" in str(o[n.split("-")[0]]["first_replay_kind"])]
+missed = [n for n, o in res.items() if not json.load(open(os.path.join(VERIF, "seeded", n, "meta.json"))).get("superseded") and ( o[n.split("-")[0]]["exit"] != 1 or not o[n.split("-")[0]]["first_replay_kind"] or "no-failing" in str(o[n.split("-")[0]]["first_replay_kind"]))]
 print("seeds:", len(res), "not reported with a failing input by their own property's check:", missed)
